@@ -544,6 +544,13 @@ class DataFormat(object):
                     "'%s' is %s but must be different from line feed and carriage return"
                     % (KEY_ITEM_DELIMITER, _compat.text_repr(self.item_delimiter))
                 )
+            try:
+                self.item_delimiter.encode(self.encoding)
+            except UnicodeError:
+                raise errors.InterfaceError(
+                    "'%s' is %s but must be a character the %s '%s' can represent"
+                    % (KEY_ITEM_DELIMITER, _compat.text_repr(self.item_delimiter), KEY_ENCODING, self.encoding)
+                )
         self._is_valid = True
 
     def __str__(self):
